@@ -7,7 +7,26 @@ hook_commits = [l.split()[0] for l in hooks if l.split(' ',1)[1].startswith('ver
 
 TRUST = "Trusted: go/packages+go/ssa (x/tools v0.29.0) IR construction, the govc VC generator (exercised by the must-fail corpus in selftest/), z3 5.1.0 / cvc5 1.0.3 / z3 4.8.12, and the trusted library specifications listed under 'assumptions' in the evidence (strings.Compare, strconv.Parse*, fmt.Errorf, ...). int is 64 bit; no concurrency; callee panics are separate safety obligations."
 
+TECH='deductive verification with ghost state and interface contracts: weakest-precondition VCs from go/ssa; contracts in node/contracts_verif.go; discharged by z3/cvc5'
 claimed = {
+ 'C03': dict(
+   text="Proof (partial: the editor's own decisions; the merge result itself lives in node implementations behind the Node interface): editor.node — insert of a child that is not created is an error, update never creates, a created child means a New request was issued; editor.leaf — defaults are requested exactly when (strategy != update and the enclosing node is new) or the editor was asked to set defaults, nothing is written when the source has no value; editor.enter/list/node/leaf/selekt/selectListItem keep the edit protocol (C12 clauses) for every strategy. Not decided: that the target tree equals the keyed deep merge; conflict/not-found error identity for lists.",
+   ref="7 (C03)", technique=TECH),
+ 'C04': dict(
+   text="Proof (partial: iteration and read protocol): Selection.get — a read vetoed by a pre-constraint asks the node nothing, a successful read always passes the post-constraints exactly once, reads never write; selectVisibleListItem/selectListItem — rows are requested one at a time, invisible rows skipped without writes; editor.leaf/list/enter — the export walk issues no write to the source. Not decided: JSON writer/reader round trip (encoding/json and the reader are outside the contracts), schema-order of containerMetaList (abstracted).",
+   ref="7 (C04)", technique=TECH),
+ 'C08': dict(
+   text="Proof (partial: navigation discipline): parseUrlPath returns only segments that name schema nodes, keys only on lists, never crashes on any path text and terminates; findSlice issues only requests carrying Target (constraint checks for non-navigation requests: ghost counter unchanged), never New/Delete (nodeWrites unchanged), balanced edit state, a nil child or entry ends the walk with no selection; Path.EqualNoKey/equalSegment compare schema nodes segment by segment. Not decided: that rendering a path and parsing it back are inverse (needs string theory and net/url), Find's query handling and selection copying (trusted summary).",
+   ref="7 (C08)", technique=TECH),
+ 'C09': dict(
+   text="Proof (partial: the editor's clearing decision): clearOnDifferentChoiceCase — a node outside any choice triggers no clearing and no write; at most one clearing per call; if nothing was cleared and no error occurred nothing was written; ClearField issues one write through Selection.set. Known finding (C12): a Choose error is swallowed. Not decided: nested choices (only the innermost choice is consulted), what Choose implementations answer, clearChoiceCase itself (trusted summary).",
+   ref="7 (C09)", technique=TECH),
+ 'C13': dict(
+   text="Proof (partial: enumerated functions): no request content can panic or hang parseUrlPath, NewValues, NewValuesByString, findSlice, Path.Len, Path.EqualNoKey/equalSegment, RangeNumber.Compare, RangeEntry/Range.CheckValue; PathMatchExpression.match is crash-free outside the recorded known finding (multi-segment selector longer than the candidate). Not decided: JSON/XML readers, xpath lexer and evaluator, NewValue, BuildConstraints.",
+   ref="7 (C13)", technique='deductive verification: safety (no-panic) and termination obligations from go/ssa; contracts in node/ and meta/contracts_verif.go; discharged by z3/cvc5'),
+ 'C18': dict(
+   text="Proof (partial: the requests issued): Selection.Delete issues at most one request, with Delete set, to the parent's node (list entries by the selection's key), inside a begin/end pair that is balanced on every path, and a node error surfaces; ReplaceFrom starts the insert only after a successful delete (ghost counter), at most once. Not decided: the slice/map surgery in nodeutil (package reflect), key uniqueness across histories.",
+   ref="7 (C18)", technique=TECH),
  'C05': dict(
    text="Proof, all inputs: the range/length machinery is verified function by function against the property's acceptance predicate: RangeNumber.Compare (sign of bound-value incl. min/max, exact bit-vector/IEEE semantics, no panic), RangeEntry.CheckValue (inside [min,max] or equal to the exact value), Range.CheckValue (one alternative; every element of a leaf-list on its own), fieldConstraints.checkRange/lenCheck (EVERY level of the typedef chain), patternCheck (invert-match honoured), checkString, CheckFieldPreConstraints (incl. string leaf-lists), and Selection.set: a vetoed or failing pre-constraint issues no Field request to the node (ghost counter fieldWrites) and the veto is what is returned. Not decided: enum/bits/identityref/union membership (node.NewValue), that node implementations store nothing on error, well-formedness of range literals vs. base type (assumed: RFC 7950 9.2.4).",
    ref="7 (C05)", technique="deductive verification: weakest-precondition VCs from go/ssa with loop invariants, opaque specification predicates and ghost state; contracts in meta/, node/, val/contracts_verif.go; discharged by z3/cvc5"),
